@@ -620,45 +620,18 @@ func c02SchedScenarios(tier string) []txScen {
 }
 
 func init() {
-	// (C02 already has an extra part - the content corpus, c02_corpus_test.go; both run)
-	corpus := extraAfterHist["C02"]
-	extraAfterHist["C02"] = func(t *testing.T, tier string) (map[string]any, []report.Viol, error) {
-		cov := map[string]any{}
-		var viols []report.Viol
-		if corpus != nil {
-			c1, v1, err := corpus(t, tier)
+	for _, x := range []struct {
+		id    string
+		scens func(string) []txScen
+	}{{"C02", c02SchedScenarios}, {"C04", c04SchedScenarios}, {"C12", c12SchedScenarios}} {
+		x := x
+		addExtra(x.id, func(t *testing.T, tier string) (map[string]any, []report.Viol, error) {
+			res, err := runTxScenarios(t, x.scens(tier), report.RealNow().Add(schedBudget(tier)))
 			if err != nil {
 				return nil, nil, err
 			}
-			for k, v := range c1 {
-				cov[k] = v
-			}
-			viols = append(viols, v1...)
-		}
-		res, err := runTxScenarios(t, c02SchedScenarios(tier), report.RealNow().Add(schedBudget(tier)))
-		if err != nil {
-			return nil, nil, err
-		}
-		c2, v2 := txCoverage("C02", res)
-		for k, v := range c2 {
-			cov[k] = v
-		}
-		return cov, append(viols, v2...), nil
-	}
-	extraAfterHist["C04"] = func(t *testing.T, tier string) (map[string]any, []report.Viol, error) {
-		res, err := runTxScenarios(t, c04SchedScenarios(tier), report.RealNow().Add(schedBudget(tier)))
-		if err != nil {
-			return nil, nil, err
-		}
-		cov, v := txCoverage("C04", res)
-		return cov, v, nil
-	}
-	extraAfterHist["C12"] = func(t *testing.T, tier string) (map[string]any, []report.Viol, error) {
-		res, err := runTxScenarios(t, c12SchedScenarios(tier), report.RealNow().Add(schedBudget(tier)))
-		if err != nil {
-			return nil, nil, err
-		}
-		cov, v := txCoverage("C12", res)
-		return cov, v, nil
+			cov, v := txCoverage(x.id, res)
+			return cov, v, nil
+		})
 	}
 }
